@@ -68,6 +68,11 @@ pub struct Case {
   /// first due time (still before anything falls due), promptly from then on
   #[serde(default)]
   late_start: bool,
+  /// fault (interval sources on the prompt executor): every subscriber callback
+  /// takes this long (units of 100 us, less than the period), so the executor
+  /// is idle again well before the next tick falls due
+  #[serde(default)]
+  busy_100us: u32,
 }
 
 #[derive(Default)]
@@ -221,7 +226,12 @@ impl Scenario for C08 {
         _ => Act::SpuriousPoll(rng.below(4) as u16),
       });
     }
-    serde_json::to_value(Case { src, shared_sched: rng.chance(1, 2), sub_after: *rng.pick(&[0u32, 0, 0, 2]), prompt: rng.chance(1, 2), acts, late_start: rng.chance(1, 3) }).unwrap()
+    let prompt = rng.chance(1, 2);
+    let busy_100us = match &src {
+      Src::Interval { p, .. } | Src::IntervalAt { p, .. } if prompt && *p > 0 && rng.chance(1, 6) => (*rng.pick(&[1u32, 5, 20, 2000])).min(*p * 10 - 1),
+      _ => 0,
+    };
+    serde_json::to_value(Case { src, shared_sched: rng.chance(1, 2), sub_after: *rng.pick(&[0u32, 0, 0, 2]), prompt, acts, late_start: rng.chance(1, 3), busy_100us }).unwrap()
   }
 
   fn run(&self, case: &Value) -> Result<Outcome, String> {
@@ -232,8 +242,15 @@ impl Scenario for C08 {
       Src::StreamResult { gates, err_at: Some(e) } if *e >= gates.len() => return Err("error position beyond the stream".into()),
       _ => {}
     }
+    if case.busy_100us > 0 {
+      let ok = case.prompt && matches!(&case.src, Src::Interval { p, .. } | Src::IntervalAt { p, .. } if case.busy_100us < *p * 10);
+      if !ok {
+        return Err("a busy subscriber is only judged for interval sources on the prompt executor, and for less than a period".into());
+      }
+    }
     let w = World::new();
     let log = ProbeLog::new(false);
+    log.busy_ns.store(case.busy_100us as u64 * MS / 10, SeqCst);
     let p = Probe(log.clone());
     let gates: Gates = Arc::new(Mutex::new(GateState::default()));
     let mk_stream = |g: Vec<Gate>, err_at: Option<usize>| ScriptStream { gates: g, pos: 0, selfwake_left: None, ext_seen: 0, err_at, st: gates.clone() };
@@ -396,7 +413,7 @@ impl Scenario for C08 {
     // ---- oracle
     let recs = log.records();
     let evs: Vec<Ev> = recs.iter().map(|r| r.ev.clone()).collect();
-    let site = format!("{:?}", case.src).split(|c: char| !c.is_alphanumeric()).next().unwrap().to_string();
+    let site = format!("{}{}", format!("{:?}", case.src).split(|c: char| !c.is_alphanumeric()).next().unwrap(), if case.busy_100us > 0 { " busy-subscriber" } else { "" });
     let mut violation: Option<Violation> = None;
     let mut bad = |rule: &str, detail: String| {
       if violation.is_none() {
